@@ -13,6 +13,7 @@ shape on every member of the class, not a sample.
 Anything outside the modelled subset raises Undecided (exit 2), never a verdict.
 """
 import ast
+import re
 
 from .algebra import Undecided
 from .source import norm, dotted
@@ -124,6 +125,58 @@ _OPERATOR_CMP.pop("operator.contains")
 _STD_MODULES = ("itertools", "functools", "operator", "math", "copy", "collections")
 _NOTHANDLED = object()
 _BUILTIN_CALLABLES = ("map", "filter", "zip", "enumerate", "sorted", "reversed", "sum", "min", "max", "abs", "any", "all", "range", "set", "callable", "divmod", "print", "getattr", "hasattr")
+
+
+class ExcVal:
+    """the exception object bound by `except T as e`"""
+    _abs_native = True
+    _abs_absent = ()
+
+    def __init__(self, name, label):
+        self.name, self.label = name, label
+        m = label[len(label.split("(")[0]):]
+        self.args = (m[1:-1],) if m.startswith("(") and m.endswith(")") and len(m) > 2 else ()
+
+    def __str__(self):
+        return self.args[0] if self.args else ""
+
+    def __repr__(self):
+        return "ExcVal(%s)" % self.label
+
+
+class TypeVal:
+    """what type(x) hands back: a class known by its name"""
+    _abs_native = True
+    _abs_absent = ()
+
+    def __init__(self, name):
+        self.__name__ = name
+        self.name = name
+
+    def __eq__(self, o):
+        return isinstance(o, TypeVal) and o.name == self.name
+
+    def __hash__(self):
+        return hash(("TypeVal", self.name))
+
+    def __repr__(self):
+        return "<class %s>" % self.name
+
+
+def _raise(ex):
+    raise ex
+
+
+def _exc_names(label):
+    """'KeyError(x)' -> ['KeyError']; 'ode_utils.IntegrationError' -> ['IntegrationError']; 'KeyError/IndexError(..)' -> both"""
+    head = str(label).split("(")[0].strip()
+    return [h.strip().split(".")[-1] for h in head.split("/") if h.strip()] or ["Exception"]
+
+
+def _builtin_exc(name):
+    import builtins
+    c = getattr(builtins, name, None)
+    return c if isinstance(c, type) and issubclass(c, BaseException) else None
 
 
 class NamedTup(tuple):
@@ -340,6 +393,8 @@ class Abs:
                 return float("nan")
             if dn in self.summaries:
                 return ("callable", dn)
+            if dn in ("str.lower", "str.upper", "str.strip", "str.title", "str.casefold") and "str" not in self.env:
+                return ("py", (lambda v, _m=dn.split(".")[1]: getattr(v, _m)() if isinstance(v, str) else _raise(Raised("TypeError(descriptor requires a str)"))))
             if dn is not None:
                 cn = self._canon(dn)
                 if cn in _OPERATOR_FUNCS:
@@ -394,8 +449,8 @@ class Abs:
                     return base[self._key(k)]
                 if isinstance(base, (list, tuple, str)):
                     return base[k]
-            except (KeyError, IndexError, TypeError):
-                raise Raised("KeyError/IndexError")
+            except (KeyError, IndexError, TypeError) as ex:
+                raise Raised("%s(%s)" % (type(ex).__name__, ex))
             raise Undecided("subscript of %r" % (base,))
         if isinstance(e, ast.UnaryOp):
             v = self.ev(e.operand)
@@ -666,6 +721,11 @@ class Abs:
         """'...%s...' % values, computed for real when every value has a known text form (code that builds source text and evaluates
         it again); an opaque marker otherwise (messages)"""
         vals = list(arg) if isinstance(arg, tuple) else [arg]
+        if all(v is None or (isinstance(v, (bool, int, float, str)) and "<formatted>" not in str(v)) for v in vals) and "<formatted>" not in fmt:
+            try:
+                return fmt % arg            # plain python values: python's own result - or python's own error
+            except (TypeError, ValueError) as ex:
+                raise Raised("%s(%s)" % (type(ex).__name__, ex))
         texts = [self._text(v) for v in vals]
         if any(t is None for t in texts) or "%(" in fmt:
             return "<formatted>"
@@ -741,7 +801,7 @@ class Abs:
         if isinstance(base, AList) and attr in base.extra:
             v = base.extra[attr]
             return ("bound", v[1], base) if isinstance(v, tuple) and v and isinstance(v[0], str) and v[0] == "method" else v
-        if isinstance(base, list) and attr in ("append", "extend", "index", "copy", "tolist", "pop", "insert", "remove", "reverse", "count"):
+        if isinstance(base, list) and attr in ("append", "extend", "index", "copy", "tolist", "pop", "insert", "remove", "reverse", "count", "sort", "clear"):
             return ("listm", attr, base)
         if isinstance(base, str) and attr in ("strip", "lower", "upper", "split", "format", "join", "startswith", "endswith", "replace"):
             return ("strm", attr, base)
@@ -925,12 +985,19 @@ class Abs:
                 return v.attrs["__str__"]
             return str(v)
         if dn == "type":
+            v = args[0]
+            if isinstance(v, ExcVal):
+                return TypeVal(v.name)
+            if v is None or isinstance(v, (bool, int, float, str, list, tuple, dict)) and not isinstance(v, (OneShot, NamedTup)):
+                return TypeVal("NoneType" if v is None else type(v).__name__)
             return Tok("type(%r)" % (args[0],))
         if dn == "hasattr":
             o, a = args
             if isinstance(o, Obj):
                 return a in o.attrs or (o is self.self_obj and a in self.getters)
             if getattr(o, "_abs_native", False) and isinstance(a, str):
+                return hasattr(o, a)
+            if isinstance(o, (list, tuple, dict, str)) and not isinstance(o, (OneShot, NamedTup)) and isinstance(a, str):
                 return hasattr(o, a)
             if a == "__len__":
                 return isinstance(o, (list, tuple, dict, str))
@@ -954,6 +1021,12 @@ class Abs:
                 if len(args) == 3:
                     return args[2]
                 return self.getattr(o, a)
+            if isinstance(o, (list, tuple, dict, str)) and not isinstance(o, (OneShot, NamedTup)) and isinstance(a, str):
+                if hasattr(o, a):
+                    return self.getattr(o, a)
+                if len(args) == 3:
+                    return args[2]
+                raise Raised("AttributeError(%s object has no attribute %s)" % (type(o).__name__, a))
             if len(args) == 3:
                 try:
                     return self.getattr(o, a)
@@ -977,9 +1050,16 @@ class Abs:
         if dn == "print" or (dn is not None and (dn.startswith("logging.") or dn in ("warnings.warn", "logger.debug", "logger.info", "logger.warning"))):
             return None
         if dn in ("int", "float"):
+            if not args:
+                return 0 if dn == "int" else 0.0
             v = args[0]
-            if isinstance(v, (int, float)) and not isinstance(v, bool):
-                return int(v) if dn == "int" else float(v)
+            if isinstance(v, (int, float, str)) and "<formatted>" not in str(v):
+                try:
+                    return (int if dn == "int" else float)(v, *args[1:])
+                except (ValueError, TypeError, OverflowError) as ex:
+                    raise Raised("%s(%s)" % (type(ex).__name__, ex))
+            if v is None or isinstance(v, (list, tuple, dict)):
+                raise Raised("TypeError(%s() argument must be a string or a real number, not %s)" % (dn, type(v).__name__))
             return v
         if dn == "map":
             fn = args[0]
@@ -1002,10 +1082,28 @@ class Abs:
             fn, seq = args
             return OneShot(x for x in self._iter(seq) if (self.truth(x) if fn is None else self.truth(self.apply(fn, [x], {}))))
         if dn == "sorted":
+            seq = self._iter(args[0])
+            key = kw.get("key")
             try:
-                return sorted(self._iter(args[0]), reverse=bool(kw.get("reverse", False)))
+                if key is not None:
+                    keyed = [(self.apply(key, [x], {}), i, x) for i, x in enumerate(seq)]
+                    keyed.sort(key=lambda t: (t[0],), reverse=bool(kw.get("reverse", False)))
+                    if bool(kw.get("reverse", False)):
+                        # python's sort is stable also when reversed: equal keys keep their original order
+                        keyed = sorted([(self.apply(key, [x], {}), i, x) for i, x in enumerate(seq)], key=lambda t: t[0], reverse=True)
+                    return [x for _k, _i, x in keyed]
+                return sorted(seq, reverse=bool(kw.get("reverse", False)))
             except TypeError:
                 raise Undecided("sorting opaque values")
+        if dn == "repr" and len(args) == 1:
+            v = args[0]
+            if v is None or isinstance(v, (bool, int, float, str)) and "<formatted>" not in str(v):
+                return repr(v)
+            raise Undecided("repr of %r" % (v,))
+        if dn == "round" and 1 <= len(args) <= 2 and "round" not in self.env:
+            if all(isinstance(a, (int, float)) and not isinstance(a, bool) for a in args):
+                return round(*args)
+            raise Undecided("round of %r" % (args,))
         if dn == "reversed":
             return OneShot(reversed(self._iter(args[0])))
         if dn == "set":
@@ -1025,7 +1123,7 @@ class Abs:
         if dn == "abs" and args and isinstance(args[0], (int, float)):
             return abs(args[0])
         if dn == "sum":
-            tot = 0
+            tot = args[1] if len(args) > 1 else kw.get("start", 0)
             for x in self._iter(args[0]):
                 tot = self.binop(ast.Add(), tot, x)
             return tot
@@ -1274,16 +1372,98 @@ class Abs:
                 if m == "reverse":
                     l.reverse()
                     return None
+                if m == "clear":
+                    del l[:]
+                    return None
+                if m == "sort":
+                    key, rev = kw.get("key"), bool(kw.get("reverse", False))
+                    try:
+                        if key is not None:
+                            keyed = sorted([(self.apply(key, [x], {}), i, x) for i, x in enumerate(l)], key=lambda t: t[0], reverse=rev)
+                            l[:] = [x for _k, _i, x in keyed]
+                        else:
+                            l.sort(reverse=rev)
+                    except TypeError:
+                        raise Undecided("sorting opaque values")
+                    return None
                 if m == "count":
                     return sum(1 for x in l if self.compare(ast.Eq(), x, args[0]))
             if tag == "strm":
                 _, m, s = f
                 if m == "format":
+                    plain = lambda v: v is None or (isinstance(v, (bool, int, float, str)) and "<formatted>" not in str(v))
+                    if all(plain(v) for v in args) and all(plain(v) for v in kw.values()) and "<formatted>" not in s:
+                        try:
+                            return s.format(*args, **kw)
+                        except (IndexError, KeyError, ValueError, TypeError) as ex:
+                            raise Raised("%s(%s)" % (type(ex).__name__, ex))
+                    texts = [self._text(v) for v in args]
+                    if not kw and all(t is not None for t in texts) and re.fullmatch(r"(?:[^{}]|\{\}|\{\{|\}\})*", s):
+                        return s.format(*texts)
                     return "<formatted>"
                 if m == "join":
                     return s.join(str(x) for x in self._iter(args[0]))
                 return getattr(s, m)(*args)
         raise Undecided("call of %r" % (f,))
+
+    def _exc_is_a(self, raised, handler):
+        """is the exception class `raised` a subclass of `handler` (both by name)?  True / False / None (not known)"""
+        if raised == handler or handler == "BaseException":
+            return True
+        rb, hb = _builtin_exc(raised), _builtin_exc(handler)
+        if rb is not None and hb is not None:
+            return issubclass(rb, hb)
+        if rb is not None and hb is None:
+            return False if self._repo_exc_bases(handler) is not None else None       # a class of the package does not sit above a builtin
+        # an exception class of the package: follow its bases
+        seen, todo = set(), [raised]
+        while todo:
+            c = todo.pop()
+            if c in seen:
+                continue
+            seen.add(c)
+            if c == handler:
+                return True
+            cb = _builtin_exc(c)
+            if cb is not None:
+                if hb is not None and issubclass(cb, hb):
+                    return True
+                continue
+            bases = self._repo_exc_bases(c)
+            if bases is None:
+                known = {"LinAlgError": ["ValueError"], "AxisError": ["ValueError", "IndexError"]}
+                if c in known:
+                    todo += known[c]
+                    continue
+                return True if handler == "Exception" else None
+            todo += bases
+        return False
+
+    def _repo_exc_bases(self, name):
+        repo = CURRENT_REPO[0]
+        if repo is None:
+            return None
+        for m in repo.modules.values():
+            ci = m.classes.get(name)
+            if ci is not None:
+                return [b.split(".")[-1] for b in ci.bases if b]
+        return None
+
+    def _handler_catches(self, tnode, label):
+        if tnode is None:
+            return True
+        hs = [(dotted(t) or "").split(".")[-1] for t in (tnode.elts if isinstance(tnode, ast.Tuple) else [tnode])]
+        if any(not h for h in hs):
+            raise Undecided("exception class given by an expression")
+        verdicts = []
+        for r in _exc_names(label):
+            v = [self._exc_is_a(r, h) for h in hs]
+            verdicts.append(True if any(x is True for x in v) else (None if any(x is None for x in v) else False))
+        if all(x is True for x in verdicts):
+            return True
+        if all(x is False for x in verdicts):
+            return False
+        raise Undecided("whether `except %s` catches %s" % (", ".join(hs), label))
 
     def isinstance(self, v, tnode):
         tn = tnode.elts if isinstance(tnode, ast.Tuple) else [tnode]
@@ -1305,14 +1485,25 @@ class Abs:
                 if self.types[name](v):
                     return True
                 continue
-            builtin = {"list": list, "tuple": tuple, "dict": dict, "str": str, "bool": bool}
+            builtin = {"list": list, "tuple": tuple, "dict": dict, "str": str, "bool": bool, "int": int, "float": float, "set": (set, frozenset), "object": object}
             if name in builtin:
+                if isinstance(v, Tok) and v.kind == "num" and name in ("int", "float"):
+                    # an opaque number: it is an int or a float - which one is not known
+                    if {"int", "float"} <= set(names):
+                        return True
+                    raise Undecided("whether an opaque number is an %s" % name)
+                if isinstance(v, OneShot) and name in ("list", "tuple"):
+                    continue
                 if isinstance(v, builtin[name]):
                     return True
                 continue
-            if name in ("int", "float"):
-                if isinstance(v, (int, float)) and not isinstance(v, bool) or (isinstance(v, Tok) and v.kind == "num"):
-                    return True
+            if name in ("Exception", "BaseException") or _builtin_exc(name) is not None:
+                if isinstance(v, ExcVal):
+                    r = self._exc_is_a(v.name, name)
+                    if r is None:
+                        raise Undecided("whether %s is a %s" % (v.name, name))
+                    if r:
+                        return True
                 continue
             if isinstance(name, str) and name in self.env and (self.env[name] is None or isinstance(self.env[name], (int, float, str, list, dict)) or getattr(self.env[name], "_abs_native", False)):
                 raise Raised("TypeError(isinstance() arg 2 must be a type, a tuple of types, or a union)")
@@ -1403,7 +1594,16 @@ class Abs:
                 cur = self.ev(st.target if not isinstance(st.target, ast.Name) else ast.Name(id=st.target.id, ctx=ast.Load()))
                 rhs = self.ev(st.value)
                 ip = {ast.Add: "__iadd__", ast.Sub: "__isub__", ast.Mult: "__imul__", ast.Div: "__itruediv__"}.get(type(st.op))
-                if getattr(cur, "_abs_native", False) and ip is not None and hasattr(cur, ip) and not isinstance(rhs, Tok):
+                if isinstance(cur, list) and not isinstance(cur, (OneShot,)) and isinstance(st.op, (ast.Add, ast.Mult)):
+                    # list += iterable / list *= n: the list object itself changes (every alias sees it)
+                    if isinstance(st.op, ast.Add):
+                        cur.extend(self._iter(rhs))
+                    else:
+                        if isinstance(rhs, bool) or not isinstance(rhs, int):
+                            raise Raised("TypeError(can't multiply sequence by non-int)")
+                        cur[:] = list(cur) * rhs
+                    self._bind(st.target, cur)
+                elif getattr(cur, "_abs_native", False) and ip is not None and hasattr(cur, ip) and not isinstance(rhs, Tok):
                     # numpy's augmented assignment updates the array in place: every alias sees the change
                     try:
                         self._bind(st.target, getattr(cur, ip)(rhs))
@@ -1431,6 +1631,7 @@ class Abs:
                     self.run(st.orelse)
             elif isinstance(st, ast.While):
                 n = 0
+                broke = False
                 while self.truth(self.ev(st.test)):
                     n += 1
                     if n > 5000:
@@ -1438,15 +1639,23 @@ class Abs:
                     try:
                         self.run(st.body)
                     except _Break:
+                        broke = True
                         break
                     except _Continue:
                         continue
+                if not broke:
+                    self.run(st.orelse)
             elif isinstance(st, ast.Return):
                 raise _Ret(self.ev(st.value) if st.value is not None else None)
             elif isinstance(st, ast.Raise):
-                name = "Exception"
-                if st.exc is not None:
-                    name = dotted(st.exc.func) if isinstance(st.exc, ast.Call) else (dotted(st.exc) or "Exception")
+                if st.exc is None:
+                    cur = getattr(self, "_exc_stack", [])
+                    if not cur:
+                        raise Raised("RuntimeError(No active exception to reraise)")
+                    raise cur[-1]                                       # bare raise: the exception being handled
+                if isinstance(st.exc, ast.Name) and isinstance(self.env.get(st.exc.id), ExcVal):
+                    raise Raised(self.env[st.exc.id].label)             # raise e
+                name = dotted(st.exc.func) if isinstance(st.exc, ast.Call) else (dotted(st.exc) or "Exception")
                 raise Raised(name)
             elif isinstance(st, ast.Pass):
                 continue
@@ -1459,23 +1668,36 @@ class Abs:
                     raise Raised("AssertionError")
             elif isinstance(st, ast.Try):
                 try:
-                    self.run(st.body)
-                except Raised as r:
-                    handled = False
-                    for h in st.handlers:
-                        handled = True
-                        if h.name:
-                            self.env[h.name] = Tok("exc")
-                        self.run(h.body)
-                        break
-                    if not handled:
-                        raise
-                else:
-                    self.run(st.orelse)
+                    try:
+                        self.run(st.body)
+                    except Raised as r:
+                        for h in st.handlers:
+                            if not self._handler_catches(h.type, r.exc):
+                                continue
+                            if h.name:
+                                self.env[h.name] = ExcVal(_exc_names(r.exc)[0], r.exc)
+                            self._exc_stack = getattr(self, "_exc_stack", []) + [r]
+                            try:
+                                self.run(h.body)
+                            finally:
+                                self._exc_stack = self._exc_stack[:-1]
+                                if h.name:
+                                    self.env.pop(h.name, None)          # python unbinds the name at the end of the handler
+                            break
+                        else:
+                            raise
+                    else:
+                        self.run(st.orelse)
                 finally:
                     if st.finalbody:
                         self.run(st.finalbody)
-            elif isinstance(st, (ast.Import, ast.ImportFrom)):
+            elif isinstance(st, ast.ImportFrom):
+                # a local `from itertools import product as prod`: the names stand for the library's callables
+                if st.module and st.module.split(".")[0] in _STD_MODULES and not st.level:
+                    for al in st.names:
+                        self.env[al.asname or al.name] = ("callable", "%s.%s" % (st.module, al.name))
+                continue
+            elif isinstance(st, ast.Import):
                 continue
             elif isinstance(st, ast.FunctionDef):
                 a_ = st.args
